@@ -138,7 +138,8 @@ def finish(prop: str, tier: str, results: list[RuleResult], explanation: str,
                 violations.append(f)
 
     # runs against a scratch copy (VERIF_REPO) must not touch the committed evidence
-    scratch = os.environ.get('VERIF_REPO', '/repo') != '/repo'
+    scratch = os.environ.get('VERIF_REPO', '/repo') != '/repo' or \
+        bool(os.environ.get('VERIF_NO_EVIDENCE'))
     out_root = os.path.join('/tmp', 'verif-scratch-out') if scratch else VERIF
     replay_dir = os.path.join(out_root, 'replay')
     os.makedirs(replay_dir, exist_ok=True)
